@@ -257,3 +257,115 @@ theorem planSearch_rows_in_window (o : Oracles) (db : SearchDb) (r : SearchReq) 
   exact ⟨t1, e1, l1, l2⟩
 
 end Qryn.Confine
+
+namespace Qryn.Confine
+open Qryn Qryn.Sql Qryn.Tempo
+
+/-! ### which version states put timestamp bounds into the index request -/
+theorem tagConds_ts_bounded (r : SearchReq) (ver : VersionInfo) (t : Tag) (hf : 0 < r.fromNs) (ht : 0 < r.toNs) :
+    ((tagConds r ver t).any (isLowerTs (winSearch r)) && (tagConds r ver t).any (isUpperTs (winSearch r))) =
+      isVersionSupported ver v2name r.fromNs := by
+  cases hv : isVersionSupported ver v2name r.fromNs <;> cases hop : t.op <;>
+    simp [tagConds, hv, hop, tagBase, fromPart, toPart, durPart, hf, ht, tagCond, matchVal, isLowerTs, isUpperTs, eq, neq, ge, le, lt,
+      isTsCol, winSearch, dateOf] <;>
+    (by_cases h1 : 0 < r.minDurNs <;> by_cases h2 : 0 < r.maxDurNs <;> simp [h1, h2, isLowerTs, isUpperTs, ge, lt, isTsCol])
+
+/-- the index request alone confines (one of its sub-selects has both timestamp bounds) exactly when there is a tag and
+    tempo_v2 is supported for the window -/
+theorem idxBounded_iff (r : SearchReq) (ver : VersionInfo) (tags : List Tag) (hf : 0 < r.fromNs) (ht : 0 < r.toNs) :
+    idxBounded (winSearch r) (idxQuery r ver tags) = (!tags.isEmpty && isVersionSupported ver v2name r.fromNs) := by
+  unfold idxBounded idxQuery
+  simp only [List.any_map]
+  have : ∀ t : Tag, ((fun s => (conjuncts (selWhere s)).any (isLowerTs (winSearch r)) && (conjuncts (selWhere s)).any (isUpperTs (winSearch r))) ∘
+      tagSel r ver) t = isVersionSupported ver v2name r.fromNs := by
+    intro t
+    simp only [Function.comp, conjuncts_tagSel]
+    exact tagConds_ts_bounded r ver t hf ht
+  rw [funext this]
+  cases tags with
+  | nil => rfl
+  | cons t ts => cases hv : isVersionSupported ver v2name r.fromNs <;> simp
+
+end Qryn.Confine
+
+namespace Qryn.Confine
+open Qryn Qryn.Sql Qryn.Tempo
+
+/-! ### the counter-pattern: span time bounds dropped when an index request is given -/
+theorem spanDurConds_unbounded (w : Window) (r : SearchReq) :
+    (((spanDurConds r).flatMap splice).map (unalias searchCols)).any (isLowerTs w) = false := by
+  unfold spanDurConds
+  by_cases h1 : 0 < r.minDurNs <;> by_cases h2 : 0 < r.maxDurNs <;>
+    simp [h1, h2, gt, le, splice_logical, unalias, tsAliases, searchCols, isTsCol, isLowerTs, List.lookup]
+
+theorem idx_only_confined (cfg : Cfg) (r : SearchReq) (ver : VersionInfo) (tags : List Tag) (h : SearchCfg cfg r)
+    (htags : r.tags = some tags) (hf : 0 < r.fromNs) (ht : 0 < r.toNs) :
+    searchConfined cfg (winSearch r) (planSearchIdxOnly r ver) =
+      (!tags.isEmpty && isVersionSupported ver v2name r.fromNs) := by
+  have hp : (planSearchIdxOnly r ver).plainConds = spanDurConds r := by
+    simp only [planSearchIdxOnly, htags, SearchStmt.plainConds, List.filterMap_append, List.filterMap_cons, List.filterMap_nil,
+      List.nil_append, List.filterMap_map]
+    exact filterMap_plain _
+  have hi : (planSearchIdxOnly r ver).idxs = [idxQuery r ver tags] := by
+    simp only [planSearchIdxOnly, htags, SearchStmt.idxs, List.filterMap_append, List.filterMap_cons, List.filterMap_nil,
+      List.filterMap_map]
+    have := filterMap_plain_idx (spanDurConds r)
+    simp only [List.cons_append, List.nil_append] at *
+    exact congrArg _ this
+  have hc : (planSearchIdxOnly r ver).cols = searchCols := by simp [planSearchIdxOnly, htags, planSearch]
+  have ht' : cfg.kind (planSearchIdxOnly r ver).table = .data := by
+    simp only [planSearchIdxOnly, htags, planSearch]
+    cases r.cluster <;> simp [h.traces, h.tracesDist]
+  have hd : idxDatesOk cfg (winSearch r) (idxQuery r ver tags) = true := by
+    simp only [idxDatesOk, idxQuery, List.all_map, List.all_eq_true]
+    intro t _
+    exact tagSel_confined cfg r ver h hf t
+  unfold searchConfined spanBounded
+  rw [hp, hi, hc, ht']
+  simp only [spanDurConds_unbounded, Bool.false_and, Bool.false_or]
+  simp [hd, idxBounded_iff r ver tags hf ht]
+
+end Qryn.Confine
+
+namespace Qryn.Tempo
+open Qryn
+
+/-! ### the decision function of the version state -/
+theorem foldl_lookup (name : Bytes) (rows : List (Bytes × Bytes)) : ∀ m : VersionInfo,
+    (rows.foldl verStep m).lookup name =
+      (match lastParsed name rows with | some t => some t | none => m.lookup name) := by
+  induction rows with
+  | nil => intro m; rfl
+  | cons r rs ih =>
+    intro m
+    simp only [List.foldl_cons, ih, lastParsed]
+    cases hl : lastParsed name rs with
+    | some t => rfl
+    | none =>
+      cases hp : parseInt64 r.2 with
+      | none => simp [verStep, hp]
+      | some t =>
+        simp only [verStep, hp, List.lookup]
+        cases hn : name == r.1 <;> simp
+
+/-- **which windows a feature is supported for**: the last settings row of that name whose value parses as an int64 decides,
+    through `fromNS >= value * 1000000000` in int64 arithmetic; no such row — not supported for any window. (`v5` is the
+    one name `GetVersionInfo` may add by itself.) -/
+theorem isVersionSupported_versionInfo (rows : List (Bytes × Bytes)) (tables : List Bytes) (name : Bytes) (fromNs : Int)
+    (hn : (name == asciiB "v5") = false) :
+    isVersionSupported (versionInfo rows tables) name fromNs =
+      (match lastParsed name rows with
+       | some t => decide (wrap64 (t * 1000000000) ≤ fromNs)
+       | none => false) := by
+  have hl : (versionInfo rows tables).lookup name = lastParsed name rows := by
+    unfold versionInfo
+    simp only
+    split
+    · rw [foldl_lookup]; cases lastParsed name rows <;> rfl
+    · simp only [List.lookup, hn]
+      rw [foldl_lookup]; cases lastParsed name rows <;> rfl
+  unfold isVersionSupported
+  rw [hl]
+  cases lastParsed name rows <;> rfl
+
+end Qryn.Tempo
